@@ -1,4 +1,4 @@
-(* Proofs for C18, ReadFrom part: io.ReadFull over any read script, then the delivery loop. *)
+(* Proofs for C18, ReadFrom part: the fill loop over any read script, then the delivery loop. *)
 From Gots Require Import Base.Prelude Model.PacketWriter Spec.IOSpec Proofs.WriterProofs.
 Import IOSpec PacketWriter.
 Local Open Scope nat_scope.
@@ -9,119 +9,102 @@ Definition st_data (st : rstate) : bytes :=
 Definition st_err (st : rstate) : N :=
   match st with Failed e => e | Script s => script_err s end.
 
-Lemma ral_exit_err f st acc e :
-  read_at_least (S f) st acc (Some e) =
-  Ok (acc, if PacketSize <=? length acc then None
-           else if (0 <? length acc) && (e =? E.EOF)%N then Some E.UnexpectedEOF else Some e, st).
+Lemma fp_exit_err f st acc e : fill_packet (S f) st acc (Some e) = Ok (acc, Some e, st).
 Proof. reflexivity. Qed.
 
-Lemma ral_exit_full f st acc : PacketSize <= length acc ->
-  read_at_least (S f) st acc None = Ok (acc, None, st).
+Lemma fp_exit_full f st acc : PacketSize <= length acc ->
+  fill_packet (S f) st acc None = Ok (acc, None, st).
 Proof.
-  intro H. cbn [read_at_least]. destruct (Nat.ltb_spec (length acc) PacketSize); [lia|reflexivity].
+  intro H. cbn [fill_packet]. destruct (Nat.ltb_spec (length acc) PacketSize); [lia|reflexivity].
 Qed.
 
-Lemma ral_step f st acc : length acc < PacketSize ->
-  read_at_least (S f) st acc None =
-  let '((c, oe), st') := rd_read st (PacketSize - length acc) in read_at_least f st' (acc ++ c) oe.
+Lemma fp_step f st acc : length acc < PacketSize ->
+  fill_packet (S f) st acc None =
+  let '((c, oe), st') := rd_read st (PacketSize - length acc) in fill_packet f st' (acc ++ c) oe.
 Proof.
-  intro H. cbn [read_at_least]. destruct (Nat.ltb_spec (length acc) PacketSize); [reflexivity|lia].
+  intro H. cbn [fill_packet]. destruct (Nat.ltb_spec (length acc) PacketSize); [reflexivity|lia].
 Qed.
-
-Definition ral_err (acc D : bytes) (e : N) : option N :=
-  if PacketSize - length acc <=? length D then None
-  else if (0 <? length (acc ++ D)) && (e =? E.EOF)%N then Some E.UnexpectedEOF else Some e.
 
 Lemma script_weight_cons c oe s' :
   weight (Script ((c, oe) :: s')) = S (length c) + weight (Script s').
 Proof. cbn. lia. Qed.
 
-(* io.ReadFull delivers the next min(188 - n, available) bytes whatever the fragmentation *)
-Lemma ral_spec : forall fuel st acc, weight st + 2 <= fuel -> length acc < PacketSize ->
-  exists st',
-    read_at_least fuel st acc None
-    = Ok (acc ++ firstn (PacketSize - length acc) (st_data st), ral_err acc (st_data st) (st_err st), st')
-    /\ st_data st' = skipn (PacketSize - length acc) (st_data st) /\ st_err st' = st_err st.
+(* the fill loop delivers the next min(188 - n, available) bytes whatever the fragmentation; it ends
+   without error when the packet is complete, or with the reader's error when the data ran out
+   (both can be the case when the last bytes arrive together with the error) *)
+Lemma fp_spec : forall fuel st acc, weight st + 2 <= fuel -> length acc < PacketSize ->
+  exists er st',
+    fill_packet fuel st acc None = Ok (acc ++ firstn (PacketSize - length acc) (st_data st), er, st')
+    /\ st_data st' = skipn (PacketSize - length acc) (st_data st) /\ st_err st' = st_err st
+    /\ (er = None -> PacketSize - length acc <= length (st_data st))
+    /\ (forall e, er = Some e -> e = st_err st /\ length (st_data st) <= PacketSize - length acc).
 Proof.
   pose proof PSm_val as HPS.
   induction fuel as [|f IH]; intros st acc Hw Ha; [lia|].
-  rewrite ral_step by exact Ha.
+  rewrite fp_step by exact Ha.
   set (need := PacketSize - length acc).
   assert (Hneed : 0 < need) by (unfold need; lia).
   destruct f as [|f']; [lia|].
   destruct st as [[|[c oe] s']|e].
-  - (* script exhausted: (0, EOF) *)
-    cbn [rd_read]. rewrite ral_exit_err. exists (Failed E.EOF). cbn [st_data st_err script_data script_err].
-    unfold ral_err. fold need. rewrite firstn_nil, skipn_nil.
-    destruct (Nat.leb_spec PacketSize (length (acc ++ []))) as [H|H]; [rewrite app_nil_r in H; lia|].
-    destruct (Nat.leb_spec need (length (@nil N))) as [H'|H']; [cbn [length] in H'; lia|].
-    auto.
+  - cbn [rd_read]. rewrite fp_exit_err. exists (Some E.EOF), (Failed E.EOF).
+    cbn [st_data st_err script_data script_err]. rewrite firstn_nil, skipn_nil.
+    split; [reflexivity|]. split; [reflexivity|]. split; [reflexivity|]. split; [discriminate|].
+    intros e0 H0. inversion H0; subst. cbn [length]. split; [reflexivity|lia].
   - cbn [rd_read]. destruct (Nat.leb_spec (length c) need) as [Hc|Hc].
     + destruct oe as [e|].
-      * (* last chunk of the script, with its error *)
-        rewrite ral_exit_err. exists (Failed e). cbn [st_data st_err script_data script_err].
-        unfold ral_err. fold need.
+      * rewrite fp_exit_err. exists (Some e), (Failed e). cbn [st_data st_err script_data script_err].
         rewrite firstn_all2 by exact Hc. rewrite skipn_all2 by exact Hc.
-        repeat split.
-        destruct (Nat.leb_spec PacketSize (length (acc ++ c))) as [H|H];
-        destruct (Nat.leb_spec need (length c)) as [H'|H']; rewrite app_length in H; unfold need in *;
-          try lia; reflexivity.
-      * (* a chunk without error *)
-        cbn [st_data st_err script_data script_err].
+        split; [reflexivity|]. split; [reflexivity|]. split; [reflexivity|]. split; [discriminate|].
+        intros e0 H0. inversion H0; subst. split; [reflexivity|exact Hc].
+      * cbn [st_data st_err script_data script_err].
         destruct (Nat.eq_dec (length c) need) as [He|He].
-        -- rewrite ral_exit_full by (rewrite app_length; unfold need in *; lia).
-           exists (Script s'). cbn [st_data st_err]. unfold ral_err. fold need.
-           rewrite firstn_app, skipn_app. rewrite He, Nat.sub_diag. cbn [firstn skipn].
-           rewrite <- He at 1. rewrite firstn_all, app_nil_r. rewrite <- He at 2. rewrite skipn_all.
-           destruct (Nat.leb_spec need (length (c ++ script_data s'))) as [H|H];
-             [|rewrite app_length in H; lia].
-           auto.
+        -- rewrite fp_exit_full by (rewrite app_length; unfold need in *; lia).
+           exists None, (Script s'). cbn [st_data st_err].
+           rewrite <- He. rewrite firstn_app, skipn_app, Nat.sub_diag, firstn_all, skipn_all.
+           cbn [firstn skipn app]. rewrite app_nil_r.
+           split; [reflexivity|]. split; [reflexivity|]. split; [reflexivity|].
+           split; [intros _; rewrite app_length; lia|discriminate].
         -- rewrite script_weight_cons in Hw.
-           destruct (IH (Script s') (acc ++ c)) as [st' [Hr [Hd Hx]]].
+           destruct (IH (Script s') (acc ++ c)) as [er [st' [Hr [Hd [Hx [Hn Hs]]]]]].
            { lia. }
            { rewrite app_length. unfold need in *. lia. }
-           exists st'. cbn [st_data st_err] in *. rewrite Hr, Hd, Hx.
            assert (Hn' : PacketSize - length (acc ++ c) = need - length c)
              by (rewrite app_length; unfold need; lia).
-           rewrite Hn'. repeat split.
-           ++ assert (HX : (acc ++ c) ++ firstn (need - length c) (script_data s')
-                           = acc ++ firstn need (c ++ script_data s')).
-              { rewrite firstn_app, (firstn_all2 c) by lia. rewrite <- app_assoc. reflexivity. }
-              assert (HY : ral_err (acc ++ c) (script_data s') (script_err s')
-                           = ral_err acc (c ++ script_data s') (script_err s')).
-              { unfold ral_err. fold need. rewrite Hn'. rewrite <- app_assoc.
-                destruct (Nat.leb_spec (need - length c) (length (script_data s'))) as [H|H];
-                destruct (Nat.leb_spec need (length (c ++ script_data s'))) as [H'|H'];
-                  rewrite app_length in H'; try lia; reflexivity. }
-              rewrite HX, HY. reflexivity.
-           ++ rewrite skipn_app, (skipn_all2 c) by lia. reflexivity.
-    + (* the chunk does not fit: its first `need` bytes now, the rest stays *)
-      assert (Hl : length (acc ++ firstn need c) = PacketSize).
+           rewrite Hn' in *. cbn [st_data st_err] in *.
+           exists er, st'. rewrite Hr.
+           split.
+           { rewrite firstn_app, (firstn_all2 c) by lia. rewrite <- app_assoc. reflexivity. }
+           split; [rewrite Hd, skipn_app, (skipn_all2 c) by lia; reflexivity|].
+           split; [exact Hx|]. split.
+           { intro H0. specialize (Hn H0). rewrite app_length. lia. }
+           { intros e0 H0. destruct (Hs e0 H0) as [H1 H2]. split; [exact H1|]. rewrite app_length. lia. }
+    + assert (Hl : length (acc ++ firstn need c) = PacketSize).
       { rewrite app_length, firstn_length. unfold need in *. lia. }
-      rewrite ral_exit_full by lia.
-      exists (Script ((skipn need c, oe) :: s')).
+      rewrite fp_exit_full by lia.
+      exists None, (Script ((skipn need c, oe) :: s')).
       assert (Hz : need - length c = 0) by lia.
-      destruct oe as [e|]; cbn [st_data st_err script_data script_err]; unfold ral_err; fold need.
-      * destruct (Nat.leb_spec need (length c)) as [H|H]; [|lia]. auto.
+      destruct oe as [e|]; cbn [st_data st_err script_data script_err].
+      * split; [reflexivity|]. split; [reflexivity|]. split; [reflexivity|].
+        split; [intros _; lia|discriminate].
       * rewrite firstn_app, skipn_app, Hz. cbn [firstn skipn]. rewrite app_nil_r.
-        destruct (Nat.leb_spec need (length (c ++ script_data s'))) as [H|H];
-          [|rewrite app_length in H; lia].
-        auto.
-  - (* the reader already failed: (0, e) again *)
-    cbn [rd_read]. rewrite ral_exit_err. exists (Failed e). cbn [st_data st_err].
-    unfold ral_err. fold need. rewrite firstn_nil, skipn_nil.
-    destruct (Nat.leb_spec PacketSize (length (acc ++ []))) as [H|H]; [rewrite app_nil_r in H; lia|].
-    destruct (Nat.leb_spec need (length (@nil N))) as [H'|H']; [cbn [length] in H'; lia|].
-    auto.
+        split; [reflexivity|]. split; [reflexivity|]. split; [reflexivity|].
+        split; [intros _; rewrite app_length; lia|discriminate].
+  - cbn [rd_read]. rewrite fp_exit_err. exists (Some e), (Failed e).
+    cbn [st_data st_err]. rewrite firstn_nil, skipn_nil.
+    split; [reflexivity|]. split; [reflexivity|]. split; [reflexivity|]. split; [discriminate|].
+    intros e0 H0. inversion H0; subst. cbn [length]. split; [reflexivity|lia].
 Qed.
 
-Lemma read_full_spec st : exists st',
-  read_full st = Ok (firstn PacketSize (st_data st), ral_err [] (st_data st) (st_err st), st')
-  /\ st_data st' = skipn PacketSize (st_data st) /\ st_err st' = st_err st.
+Lemma fill_one_spec st : exists er st',
+  fill_one st = Ok (firstn PacketSize (st_data st), er, st')
+  /\ st_data st' = skipn PacketSize (st_data st) /\ st_err st' = st_err st
+  /\ (er = None -> PacketSize <= length (st_data st))
+  /\ (forall e, er = Some e -> e = st_err st /\ length (st_data st) <= PacketSize).
 Proof.
-  unfold read_full.
-  destruct (ral_spec (weight st + 2) st [] ltac:(lia) ltac:(cbn [length]; rewrite PSm_val; lia)) as [st' [H [Hd He]]].
-  exists st'. cbn [length app] in *. rewrite Nat.sub_0_r in *. auto.
+  unfold fill_one.
+  destruct (fp_spec (weight st + 2) st [] ltac:(lia) ltac:(cbn [length]; rewrite PSm_val; lia))
+    as [er [st' H]].
+  exists er, st'. cbn [length app] in *. rewrite Nat.sub_0_r in *. exact H.
 Qed.
 
 (* ------------------------------------------------------------------ the delivery loop *)
@@ -150,11 +133,7 @@ Qed.
 
 Lemma rf_loop_S f w st pkt n err k calls :
   rf_loop (S f) w st pkt n err k calls =
-  let? (data, er0, st') := read_full st in
-  let er := match er0 with
-            | Some e => if (e =? E.UnexpectedEOF)%N then Some E.EOF else Some e
-            | None => None
-            end in
+  let? (data, er, st') := fill_one st in
   let pkt' := blit pkt 0 data in
   let nr := length data in
   let finish (n : Z) (err : option N) (k : nat) (calls : list bytes) :=
@@ -175,23 +154,15 @@ Lemma rf_loop_S f w st pkt n err k calls :
   else finish n (if (0 <? nr)%nat then Some E.InvalidPacketLength else err) k calls.
 Proof. reflexivity. Qed.
 
-(* the repaired loop cannot tell a reader's own io.ErrUnexpectedEOF from io.ReadFull's: it is
-   treated as io.EOF *)
-Definition norm_err (e : N) : N := if (e =? E.UnexpectedEOF)%N then E.EOF else e.
-
-Lemma norm_err_id e : e <> E.UnexpectedEOF -> norm_err e = e.
-Proof. intro H. unfold norm_err. destruct (N.eqb_spec e E.UnexpectedEOF); [contradiction|reflexivity]. Qed.
-
 Lemma rf_loop_spec w : forall fuel st pkt n k calls,
   length (st_data st) < fuel -> length pkt = PacketSize ->
   rf_loop fuel w st pkt n None k calls
-  = Ok (rf_spec w (full_chunks (st_data st)) (tail (st_data st)) (norm_err (st_err st)) n k calls).
+  = Ok (rf_spec w (full_chunks (st_data st)) (tail (st_data st)) (st_err st) n k calls).
 Proof.
   induction fuel as [|f IH]; intros st pkt n k calls Hf Hp; [lia|].
   rewrite rf_loop_S.
-  destruct (read_full_spec st) as [st' [Hr [Hd He]]]. rewrite Hr. cbn [bind].
+  destruct (fill_one_spec st) as [er [st' [Hr [Hd [He [Hnone Hsome]]]]]]. rewrite Hr. cbn [bind].
   set (D := st_data st) in *. set (Ee := st_err st) in *.
-  unfold ral_err. cbn [length app]. rewrite Nat.sub_0_r.
   destruct (Nat.leb_spec PacketSize (length D)) as [Hge|Hlt].
   - (* a complete packet *)
     assert (Hl : length (firstn PacketSize D) = PacketSize) by (rewrite firstn_length; lia).
@@ -201,31 +172,24 @@ Proof.
     change IOSpec.PacketSize with PacketSize.
     destruct (w k (firstn PacketSize D)) as [nw [x|]]; [reflexivity|].
     destruct (negb (nw =? 188)%Z); [reflexivity|].
-    rewrite IH.
-    + rewrite Hd, He. reflexivity.
-    + rewrite Hd, skipn_length. rewrite PSm_val in *. lia.
-    + exact Hl.
+    destruct er as [e|].
+    + (* the last bytes of the packet came together with the reader's error: nothing is left *)
+      destruct (Hsome e eq_refl) as [HeE Hle]. subst e.
+      assert (Hsk : skipn PacketSize D = []) by (apply skipn_all2; exact Hle).
+      rewrite Hsk. rewrite full_chunks_lt, tail_lt by (cbn [length]; rewrite PS_val; lia).
+      cbn [rf_spec]. reflexivity.
+    + rewrite IH.
+      * rewrite Hd, He. reflexivity.
+      * rewrite Hd, skipn_length. rewrite PSm_val in *. lia.
+      * exact Hl.
   - (* the data ends: fewer than 188 bytes are left *)
+    destruct er as [e|]; [|specialize (Hnone eq_refl); lia].
+    destruct (Hsome e eq_refl) as [HeE _]. subst e.
     rewrite firstn_all2 by lia.
     rewrite full_chunks_lt, tail_lt by exact Hlt. cbn [rf_spec].
     destruct (Nat.eqb_spec (length D) PacketSize) as [Hx|_]; [lia|].
-    unfold norm_err.
-    destruct (N.eqb_spec Ee E.EOF) as [HE|HE].
-    + (* clean end of stream *)
-      rewrite andb_true_r. rewrite ?HE.
-      change (E.EOF =? E.UnexpectedEOF)%N with false. cbv iota.
-      destruct D as [|d D'].
-      * cbn [length]. change (0 <? 0) with false. cbv iota.
-        change (E.EOF =? E.UnexpectedEOF)%N with false. cbv iota.
-        change (E.EOF =? E.EOF)%N with true. reflexivity.
-      * cbn [length]. change (0 <? S (length D')) with true. cbv iota.
-        change (E.UnexpectedEOF =? E.UnexpectedEOF)%N with true. cbv iota.
-        change (E.EOF =? E.EOF)%N with true. reflexivity.
-    + (* the reader failed *)
-      rewrite andb_false_r.
-      destruct (N.eqb_spec Ee E.UnexpectedEOF) as [HU|HU].
-      * change (E.EOF =? E.EOF)%N with true. cbv iota. destruct D; reflexivity.
-      * destruct (N.eqb_spec Ee E.EOF) as [HE'|_]; [contradiction|]. reflexivity.
+    destruct (N.eqb_spec Ee E.EOF) as [HE|HE]; [|reflexivity].
+    destruct D as [|d D']; reflexivity.
 Qed.
 
 Lemma script_len_data s : script_len s = length (script_data s).
@@ -234,20 +198,13 @@ Proof.
   rewrite app_length, IH. reflexivity.
 Qed.
 
-Lemma read_from_general w pkt s : length pkt = PacketSize ->
+Lemma read_from_spec w pkt s : length pkt = PacketSize ->
   read_from w pkt s
-  = Ok (rf_spec w (full_chunks (script_data s)) (tail (script_data s)) (norm_err (script_err s)) 0%Z 0 []).
+  = Ok (rf_spec w (full_chunks (script_data s)) (tail (script_data s)) (script_err s) 0%Z 0 []).
 Proof.
   intros Hp. unfold read_from.
   apply (rf_loop_spec w (S (script_len s)) (Script s)); cbn [st_data st_err]; auto.
   rewrite script_len_data. lia.
-Qed.
-
-Lemma read_from_spec w pkt s : length pkt = PacketSize -> script_err s <> E.UnexpectedEOF ->
-  read_from w pkt s
-  = Ok (rf_spec w (full_chunks (script_data s)) (tail (script_data s)) (script_err s) 0%Z 0 []).
-Proof.
-  intros Hp Hu. rewrite read_from_general by exact Hp. rewrite norm_err_id by exact Hu. reflexivity.
 Qed.
 
 (* ---- corollaries over rf_spec ---- *)
@@ -292,7 +249,7 @@ Qed.
 
 (* ---- the theorems of Properties/C18.v (ReadFrom part) ---- *)
 Lemma read_from_any_fragmentation w pkt s : length pkt = PacketSize ->
-  script_err s <> E.UnexpectedEOF -> (forall j c, w j c = (188%Z, None)) ->
+  (forall j c, w j c = (188%Z, None)) ->
   read_from w pkt s
   = Ok ((188 * Z.of_nat (length (full_chunks (script_data s))))%Z,
         (if (script_err s =? E.EOF)%N
@@ -300,19 +257,18 @@ Lemma read_from_any_fragmentation w pkt s : length pkt = PacketSize ->
          else Some (script_err s)),
         full_chunks (script_data s)).
 Proof.
-  intros Hp Hu Hw. rewrite read_from_spec by assumption.
+  intros Hp Hw. rewrite read_from_spec by assumption.
   rewrite rf_spec_ok by (intros; apply Hw). reflexivity.
 Qed.
 
 Lemma read_from_fail_stops w pkt s kf m x : length pkt = PacketSize ->
-  script_err s <> E.UnexpectedEOF ->
   kf < length (full_chunks (script_data s)) ->
   (forall j, j < kf -> w j (nth j (full_chunks (script_data s)) []) = (188%Z, None)) ->
   w kf (nth kf (full_chunks (script_data s)) []) = (m, Some x) ->
   read_from w pkt s
   = Ok ((188 * Z.of_nat kf + Z.max 0 m)%Z, Some x, firstn (S kf) (full_chunks (script_data s))).
 Proof.
-  intros Hp Hu Hk Hok Hf. rewrite read_from_spec by assumption.
+  intros Hp Hk Hok Hf. rewrite read_from_spec by assumption.
   rewrite (rf_spec_fail w _ _ _ 0%Z 0 [] kf m x Hk Hok Hf). reflexivity.
 Qed.
 
@@ -320,17 +276,18 @@ Qed.
 Lemma read_from_total w pkt s : length pkt = PacketSize ->
   read_from w pkt s <> Panic /\ read_from w pkt s <> Diverge.
 Proof.
-  intro Hp. rewrite read_from_general by exact Hp. split; discriminate.
+  intro Hp. rewrite read_from_spec by exact Hp. split; discriminate.
 Qed.
 
-(* weakness of the candidate repair (notes/findings/C18.md): a reader whose OWN error is
-   io.ErrUnexpectedEOF is reported as a clean end of stream when it fails on a packet boundary *)
-Lemma read_from_unexpected_eof_swallowed :
-  exists w s, (forall j c, w j c = (188%Z, None)) /\ script_err s = E.UnexpectedEOF /\
-    read_from w pkt0 s = Ok (0%Z, None, []).
+(* the reader's own io.ErrUnexpectedEOF is reported like any other reader error (the first candidate
+   repair, io.ReadFull with ErrUnexpectedEOF mapped to EOF, swallowed it; notes/findings/C18.md) *)
+Lemma read_from_unexpected_eof_reported w pkt s : length pkt = PacketSize ->
+  (forall j c, w j c = (188%Z, None)) -> script_err s = E.UnexpectedEOF ->
+  read_from w pkt s
+  = Ok ((188 * Z.of_nat (length (full_chunks (script_data s))))%Z, Some E.UnexpectedEOF,
+        full_chunks (script_data s)).
 Proof.
-  exists (fun _ _ => (188%Z, None)), [([], Some E.UnexpectedEOF)].
-  split; [reflexivity|]. split; reflexivity.
+  intros Hp Hw He. rewrite read_from_any_fragmentation by assumption. rewrite He. reflexivity.
 Qed.
 
 (* F2 (DESIGN section 7): ReadFrom as pinned in /repo loses packets over a fragmenting reader.
@@ -362,8 +319,8 @@ Qed.
 Lemma read_from_prefix w pkt s : length pkt = PacketSize ->
   exists n e j, read_from w pkt s = Ok (n, e, firstn j (full_chunks (script_data s))).
 Proof.
-  intro Hp. rewrite read_from_general by exact Hp.
-  destruct (rf_spec_prefix w (tail (script_data s)) (norm_err (script_err s))
+  intro Hp. rewrite read_from_spec by exact Hp.
+  destruct (rf_spec_prefix w (tail (script_data s)) (script_err s)
               (full_chunks (script_data s)) 0%Z 0 []) as [n [e [j H]]].
   exists n, e, j. rewrite H. reflexivity.
 Qed.
